@@ -315,3 +315,27 @@ def run_inject_battery(repo, seed=1, count=0):
 @adapter(r"^core\.(GetWantedValue|ParamsTypeChange|getNumType|SetSingleValue|SetAttributeValue|GetStructAttributeValue|GetRawTypeValue|InvokeFunction):|^base\.\(\*(MapVar|Arg|Args)\)\.Evaluate:|^context\.\(\*DataContext\)\.(GetValue|SetValue|SetMapVarValue|ExecFunc|ExecMethod|ExecThreeLevel):")
 def inject_battery(prop, name, ob, repo, work):
     return run_inject_battery(repo)
+
+
+MERGE_IMPORTS = ("fmt", "strings", "sync", "math/rand", "github.com/bilibili/gengine/builder", "github.com/bilibili/gengine/context")
+
+
+def run_merge_battery(repo, seed=1, count=60):
+    return run_scenario(repo, battery_source("merge_battery.go.txt", seed, count), "Test_Replay", imports=MERGE_IMPORTS)
+
+
+@adapter(r"^tool\.BinarySearch:|^builder\.\(\*RuleBuilder\)\.(BuildRuleFromString|BuildRuleWithIncremental|RemoveRules|IsExist)|^engine\.updateIncremental:|GenginePool\)\.(UpdatePooledRules\w*|RemoveRules|ClearPoolRules|IsExist|GetRulesNumber|GetRuleSalience|GetRuleDesc):(ensures|inv-|lockinv)")
+def merge_battery(prop, name, ob, repo, work):
+    return run_merge_battery(repo)
+
+
+POS_IMPORTS = ("regexp", "strconv", "strings", "github.com/bilibili/gengine/builder", "github.com/bilibili/gengine/context")
+
+
+def run_position_battery(repo, seed=1, count=0):
+    return run_scenario(repo, battery_source("position_battery.go.txt", seed, count), "Test_Replay", imports=POS_IMPORTS)
+
+
+@adapter(r":(ensures|monitor)[:\w\.\(\)\*]*\b(cites|positioned|callerrorcites)\b|GengineParserListener\)\.Exit\w+:")
+def position_battery(prop, name, ob, repo, work):
+    return run_position_battery(repo)
